@@ -401,25 +401,31 @@ struct NamePairs {
 }
 const PAIR_T: [i128; 2] = [-2_208_988_800_000_000_000, 1_593_561_600_000_000_000];
 
+/// Ordered pairs of names: all of them, or the related ones (one a prefix of the other ignoring case, the same
+/// last component, neighbours in sorted order, a name with itself).
+pub fn name_pairs(names: &[String], all: bool) -> Vec<(u32, u32)> {
+    let lower: Vec<String> = names.iter().map(|n| n.to_ascii_lowercase()).collect();
+    let mut pairs = vec![];
+    for a in 0..names.len() {
+        for b in 0..names.len() {
+            let related = a == b || a + 1 == b || b + 1 == a || lower[a].starts_with(&lower[b]) || lower[b].starts_with(&lower[a]) || {
+                let (la, lb) = (lower[a].rsplit('/').next().unwrap(), lower[b].rsplit('/').next().unwrap());
+                la == lb
+            };
+            if all || related {
+                pairs.push((a as u32, b as u32));
+            }
+        }
+    }
+    pairs
+}
+
 impl NamePairs {
     fn new(names: &[String], tier: Tier) -> Self {
         let off = |p: &FsTzdbProvider, z: &str, t: i128| Ans::Off(p.get_named_tz_offset_nanoseconds(z, t).map(|o| o.offset).map_err(|e| format!("{:?}", e.kind())));
         let fresh: Vec<[Ans; 2]> = names.iter().map(|z| [off(&FsTzdbProvider::default(), z, PAIR_T[0]), off(&FsTzdbProvider::default(), z, PAIR_T[1])]).collect();
-        let lower: Vec<String> = names.iter().map(|n| n.to_ascii_lowercase()).collect();
-        let mut pairs = vec![];
         let all = tier == Tier::Thorough;
-        for a in 0..names.len() {
-            for b in 0..names.len() {
-                let related = a == b || a + 1 == b || b + 1 == a || lower[a].starts_with(&lower[b]) || lower[b].starts_with(&lower[a]) || {
-                    // the same last component under another area, or the same leading component of equal length
-                    let (la, lb) = (lower[a].rsplit('/').next().unwrap(), lower[b].rsplit('/').next().unwrap());
-                    la == lb
-                };
-                if all || related {
-                    pairs.push((a as u32, b as u32));
-                }
-            }
-        }
+        let pairs = name_pairs(names, all);
         NamePairs { names: names.to_vec(), fresh, pairs, all }
     }
 }
